@@ -531,27 +531,37 @@ pub fn gen_oid(r: &mut Rng) -> Vec<u64> {
     v
 }
 
+/// Lengths at which DER length forms and common size limits change.
+const EDGE_LENS: [usize; 12] = [0, 1, 2, 63, 64, 65, 127, 128, 129, 255, 256, 257];
+
 pub fn gen_dn_value(r: &mut Rng, maxlen: usize) -> DnValueR {
+    // one value in sixteen sits on a length boundary, whatever the caller's bound
+    let maxlen = if r.chance(1, 16) { *r.pick(&EDGE_LENS) } else { maxlen };
+    let exact = maxlen > 24;
+    let len = |r: &mut Rng| if exact { maxlen } else { r.range(0, maxlen as u64) as usize };
     match r.below(6) {
         0 => {
-            let n = r.range(0, maxlen as u64) as usize;
+            let n = len(r);
             DnValueR::Bmp((0..n).map(|_| *r.pick(&UNI)).collect())
         }
         1 => {
-            let n = r.range(0, maxlen as u64) as usize;
+            let n = len(r);
             DnValueR::Ia5((0..n).map(|_| r.below(128) as u8 as char).collect())
         }
-        2 => DnValueR::Printable(s_from(r, PRINTABLE, 0, maxlen)),
+        2 => {
+            let n = len(r);
+            DnValueR::Printable(s_from(r, PRINTABLE, n, n))
+        }
         3 => {
-            let n = r.range(0, maxlen as u64) as usize;
+            let n = len(r);
             DnValueR::Teletex((0..n).map(|_| r.range(0x20, 0x7f) as u8 as char).collect())
         }
         4 => {
-            let n = r.range(0, maxlen as u64) as usize;
+            let n = len(r);
             DnValueR::Universal((0..n).map(|_| if r.chance(1, 5) { *r.pick(&ASTRAL) } else { *r.pick(&UNI) }).collect())
         }
         _ => {
-            let n = r.range(0, maxlen as u64) as usize;
+            let n = len(r);
             DnValueR::Utf8((0..n).map(|_| if r.chance(1, 8) { *r.pick(&ASTRAL) } else { *r.pick(&UNI) }).collect())
         }
     }
@@ -635,7 +645,7 @@ fn gen_subtree(r: &mut Rng) -> SubtreeR {
 }
 
 fn gen_serial_hex(r: &mut Rng) -> String {
-    let n = r.range(1, 20) as usize;
+    let n = if r.chance(1, 4) { *r.pick(&[1usize, 8, 16, 19, 20]) } else { r.range(1, 20) as usize };
     let mut b = r.bytes(n);
     match r.below(6) {
         0 => b[0] = 0,
@@ -651,7 +661,21 @@ pub fn gen_time(r: &mut Rng) -> i64 {
     // 1950-01-01 = -631152000, 2050-01-01 = 2524608000, 1000-01-01 = -30610224000, 9998-12-31 = 253370678400
     match r.below(10) {
         0..=5 => r.range(0, 2524608000u64 + 631152000 - 1) as i64 - 631152000, // UTCTime era
-        6 => *r.pick(&[-631152000i64, -631152001, 2524607999, 2524608000, 0, 946684800]), // boundaries
+        6 => *r.pick(&[
+            -631152000i64, // 1950-01-01 00:00:00
+            -631152001,    // 1949-12-31 23:59:59
+            2524607999,    // 2049-12-31 23:59:59
+            2524608000,    // 2050-01-01 00:00:00
+            0,
+            946684800,    // 2000-01-01
+            951782400,    // 2000-02-29
+            951868799,    // 2000-02-29 23:59:59
+            1709251199,   // 2024-02-29 23:59:59
+            4107542400,   // 2100-03-01 (2100 is no leap year)
+            1483228799,   // 2016-12-31 23:59:59 (a leap-second day)
+            -1,           // 1969-12-31 23:59:59
+            253370678400, // 9998-12-31
+        ]), // boundaries
         7 | 8 => 2524608000 + r.below(253370678400 - 2524608000) as i64,
         _ => -30610224000 + r.below(30610224000 - 631152000) as i64,
     }
@@ -687,6 +711,12 @@ pub fn gen_cert(r: &mut Rng, sw: &Swarm) -> CertRecipe {
     let t0 = gen_time(r);
     let t1 = if r.chance(9, 10) { gen_time(r) } else { t0 };
     let mut key_usages: Vec<u8> = (0..9u8).filter(|_| r.chance(1, 3)).collect();
+    match r.below(12) {
+        0 => key_usages = (0..9u8).collect(),
+        1 => key_usages = vec![8],
+        2 => key_usages = vec![7, 8],
+        _ => {}
+    }
     r.shuffle(&mut key_usages);
     if r.chance(1, 8) && !key_usages.is_empty() {
         let d = key_usages[0];
